@@ -112,13 +112,31 @@ fn case_bytes<F: Family>(input: &Input, ctx: &mut Ctx) -> CaseResult {
     reencode::<F>(input.bytes(), "given", ctx)
 }
 
+/// nums = [first byte, remaining length, start, count]: a block of exhaustively enumerated short frames
+fn case_short<F: Family>(input: &Input, ctx: &mut Ctx) -> CaseResult {
+    let n = input.nums();
+    let (first, rl, start, count) = (n[0] as u8, n[1] as usize, n[2], n[3]);
+    for i in start..start + count {
+        let fr = crate::shortframes::frame(first, rl, i);
+        if let Err(v) = reencode::<F>(&fr, "short-frame", ctx) {
+            ctx.refine = Some((if F::FAM == crate::model::Fam::V3 { "c11.bytes.v3" } else { "c11.bytes.v5" }, Input::Bytes(fr)));
+            return Err(v);
+        }
+    }
+    ctx.more_evals(count.saturating_sub(1));
+    ctx.label_n("short-frames", count);
+    Ok(())
+}
+
+pub const SUB_X3: Sub = Sub { name: "c11.short-frames.v3", f: case_short::<V3> };
+pub const SUB_X5: Sub = Sub { name: "c11.short-frames.v5", f: case_short::<V5> };
 pub const SUB_V3: Sub = Sub { name: "c11.reencode.v3", f: case::<V3> };
 pub const SUB_V5: Sub = Sub { name: "c11.reencode.v5", f: case::<V5> };
 pub const SUB_B3: Sub = Sub { name: "c11.bytes.v3", f: case_bytes::<V3> };
 pub const SUB_B5: Sub = Sub { name: "c11.bytes.v5", f: case_bytes::<V5> };
 
 pub fn subs() -> Vec<Sub> {
-    vec![SUB_V3, SUB_V5, SUB_B3, SUB_B5]
+    vec![SUB_V3, SUB_V5, SUB_B3, SUB_B5, SUB_X3, SUB_X5]
 }
 
 /// inputs behind the repaired defects D1/D2 and the known finding K1
@@ -151,6 +169,12 @@ pub fn run(env: &mut Env) -> RunResult {
     let z5 = crate::sized::encoded_inputs::<V5>(env.thorough(), lim);
     let k5 = z5.len() as u64;
     env.run_enum(SUB_B5, k5, false, move |i| z5[i as usize].clone())?;
+    // every frame with a body of 0..=2 bytes and bodies of 3..=4 (thorough: 5) bytes over a reduced alphabet
+    let sb = crate::shortframes::blocks(env.thorough(), env.tier.sel(4usize, 5usize));
+    let kb = sb.len() as u64;
+    let sb2 = sb.clone();
+    env.run_enum(SUB_X3, kb, true, move |i| sb2[i as usize].clone())?;
+    env.run_enum(SUB_X5, kb, true, move |i| sb[i as usize].clone())?;
     let n = env.tier.sel(25_000, 400_000);
     env.run_tapes(SUB_V3, n, 200)?;
     env.run_tapes(SUB_V5, n * 2, 300)?;
